@@ -215,8 +215,21 @@ fn run_range(rc: &RangeCmd, t0: Instant, warmed: &mut HashSet<String>) {
         emit(&json!({"type":"error","message":format!("unknown family {}", rc.family)}));
         return;
     };
-    warm_up(warmed, fam, &rc.property);
     let progress = std::fs::OpenOptions::new().create(true).write(true).truncate(false).open(&rc.progress_path).ok();
+    // the discarded warm-up run is under the watchdog too (attributed to the first script of the
+    // shard): a tree on which every run of a family livelocks must not hang the worker for good
+    WATCHDOG_MS.store(fam.watchdog_ms(), Ordering::SeqCst);
+    CURRENT_ITEM.store(rc.item, Ordering::SeqCst);
+    if let Some(p) = &progress {
+        let mut buf = [0u8; 16];
+        buf[..8].copy_from_slice(&rc.item.to_le_bytes());
+        buf[8..].copy_from_slice(&rc.start.to_le_bytes());
+        let _ = p.write_all_at(&buf, 0);
+    }
+    CURRENT_STARTED_MS.store(now_ms(t0), Ordering::SeqCst);
+    CURRENT.store(rc.start, Ordering::SeqCst);
+    warm_up(warmed, fam, &rc.property);
+    CURRENT.store(u64::MAX, Ordering::SeqCst);
     let mut stats = RangeStats { item: rc.item, family: rc.family.clone(), ..Default::default() };
     let mut nontrivial_bodies: HashSet<u64> = HashSet::new();
     let mut traces: HashSet<u64> = HashSet::new();
